@@ -95,7 +95,7 @@ func runC11(c *Ctx) {
 		c.Fail("FDP-FIELDS", "enumerate", token.NoPos, "only %d proto fields found in descriptorpb.FileDescriptorProto", len(fdpFields))
 	}
 	// (a) the ImageFile builder literal
-	if fr := p.Func(pkgImage, "fileDescriptorProtoToProtoImageFile"); fr == nil {
+	if fr := c11ProtoImageFileBuilder(p); fr == nil {
 		c.Fail("FDP-FIELDS", "builder", token.NoPos, "fileDescriptorProtoToProtoImageFile not found")
 	} else {
 		info := fr.Info()
@@ -133,8 +133,19 @@ func runC11(c *Ctx) {
 			}
 			if sel, ok := call.Fun.(*ast.SelectorExpr); ok && sel.Sel.Name == "SetUnknown" && len(call.Args) == 1 {
 				if inner, ok := ast.Unparen(call.Args[0]).(*ast.CallExpr); ok {
-					if fn := Callee(info, inner); fn != nil && fn.Name() == "stripBufExtensionField" && len(inner.Args) == 1 && strings.HasSuffix(exprString(inner.Args[0]), "GetUnknown()") {
-						okUnknown = true
+					if fn := Callee(info, inner); fn != nil && fn.Name() == "stripBufExtensionField" && len(inner.Args) == 1 {
+						if strings.HasSuffix(exprString(inner.Args[0]), "GetUnknown()") {
+							okUnknown = true
+						}
+						// or a local holding it
+						if vo := identObj(info, inner.Args[0]); vo != nil {
+							ast.Inspect(fr.Decl.Body, func(m ast.Node) bool {
+								if as, ok := m.(*ast.AssignStmt); ok && len(as.Lhs) == 1 && len(as.Rhs) == 1 && identObj(info, as.Lhs[0]) == vo && strings.HasSuffix(exprString(as.Rhs[0]), "GetUnknown()") {
+									okUnknown = true
+								}
+								return true
+							})
+						}
 					}
 				}
 			}
@@ -376,9 +387,9 @@ func getterFieldOf(info *types.Info, e ast.Expr) string {
 
 func c11ExtFields(c *Ctx, pkImg, pkV1 *packages.Package) {
 	p := c.P
-	out := p.Func(pkgImage, "fileDescriptorProtoToProtoImageFile")
+	out := c11ProtoImageFileBuilder(p)
 	in := p.Func(pkgImage, "NewImageForProto")
-	conv := p.Func(pkgImage, "imageFileToProtoImageFile")
+	conv := c11ImageFileToProto(p, out)
 	if out == nil || in == nil || conv == nil {
 		c.Fail("EXT-FIELDS", "anchor", token.NoPos, "fileDescriptorProtoToProtoImageFile / NewImageForProto / imageFileToProtoImageFile not found")
 		return
@@ -440,7 +451,7 @@ func c11ExtFields(c *Ctx, pkImg, pkV1 *packages.Package) {
 	var convCall *ast.CallExpr
 	ast.Inspect(conv.Decl.Body, func(n ast.Node) bool {
 		if call, ok := n.(*ast.CallExpr); ok {
-			if fn := Callee(info, call); fn != nil && fn.Name() == "fileDescriptorProtoToProtoImageFile" {
+			if fn := Callee(info, call); fn != nil && out != nil && fn == out.Obj {
 				convCall = call
 			}
 		}
@@ -709,25 +720,27 @@ var reCodec = regexp.MustCompile(`^New(Wire|JSON|Txtpb|YAML)(Unmarshaler|Marshal
 // codecsIn lists the protoencoding codec constructors called in the statements, following package-local helpers one level.
 func codecsIn(p *Prog, info *types.Info, stmts []ast.Stmt, depth int) []string {
 	var out []string
+	seen := map[*ast.Ident]bool{}
 	for _, s := range stmts {
 		ast.Inspect(s, func(n ast.Node) bool {
-			call, ok := n.(*ast.CallExpr)
-			if !ok {
-				return true
-			}
-			fn := Callee(info, call)
-			if fn == nil || fn.Pkg() == nil {
-				return true
-			}
-			if strings.HasSuffix(fn.Pkg().Path(), "/protoencoding") {
-				if m := reCodec.FindStringSubmatch(fn.Name()); m != nil {
-					out = append(out, m[1]+" "+m[2])
+			switch x := n.(type) {
+			case *ast.Ident:
+				// any reference to a codec constructor counts, called or passed as a function value
+				if fn, ok := info.Uses[x].(*types.Func); ok && fn.Pkg() != nil && strings.HasSuffix(fn.Pkg().Path(), "/protoencoding") && !seen[x] {
+					seen[x] = true
+					if m := reCodec.FindStringSubmatch(fn.Name()); m != nil {
+						out = append(out, m[1]+" "+m[2])
+					}
 				}
-				return true
-			}
-			if depth > 0 && strings.HasPrefix(fn.Pkg().Path(), modPath) {
-				if fr := p.DeclOf(fn); fr != nil && fr.Decl.Body != nil {
-					out = append(out, codecsIn(p, fr.Info(), fr.Decl.Body.List, depth-1)...)
+			case *ast.CallExpr:
+				fn := Callee(info, x)
+				if fn == nil || fn.Pkg() == nil || strings.HasSuffix(fn.Pkg().Path(), "/protoencoding") {
+					return true
+				}
+				if depth > 0 && strings.HasPrefix(fn.Pkg().Path(), modPath) {
+					if fr := p.DeclOf(fn); fr != nil && fr.Decl.Body != nil {
+						out = append(out, codecsIn(p, fr.Info(), fr.Decl.Body.List, depth-1)...)
+					}
 				}
 			}
 			return true
@@ -865,6 +878,103 @@ func c11Encodings(c *Ctx, pkCtl, pkF *packages.Package) {
 	}
 }
 
+// twoPass describes a statement list that unmarshals the same data twice: resolver := bootstrapResolver(K(nil), d)
+// and then K(resolver).Unmarshal(d, msg). K is a codec constructor of protoencoding (Static) or a function-typed
+// parameter of the enclosing function (Param), so that an extracted helper taking the constructor is recognised.
+type twoPass struct {
+	OK     bool
+	Why    string
+	Static *types.Func
+	Param  *types.Var
+}
+
+func ctorOf(info *types.Info, e ast.Expr) (fn *types.Func, prm *types.Var) {
+	switch x := ast.Unparen(e).(type) {
+	case *ast.Ident:
+		switch o := info.Uses[x].(type) {
+		case *types.Func:
+			return o, nil
+		case *types.Var:
+			return nil, o
+		}
+	case *ast.SelectorExpr:
+		if o, ok := info.Uses[x.Sel].(*types.Func); ok {
+			return o, nil
+		}
+	}
+	return nil, nil
+}
+
+func twoPassShape(info *types.Info, stmts []ast.Stmt) twoPass {
+	var boot *ast.CallExpr
+	var bootVar types.Object
+	var unmarshals []*ast.CallExpr
+	for _, s := range stmts {
+		ast.Inspect(s, func(n ast.Node) bool {
+			switch x := n.(type) {
+			case *ast.AssignStmt:
+				if len(x.Rhs) == 1 {
+					if call, ok := ast.Unparen(x.Rhs[0]).(*ast.CallExpr); ok {
+						if fn := Callee(info, call); fn != nil && fn.Name() == "bootstrapResolver" {
+							boot = call
+							bootVar = identObj(info, x.Lhs[0])
+						}
+					}
+				}
+			case *ast.CallExpr:
+				if sel, ok := x.Fun.(*ast.SelectorExpr); ok && sel.Sel.Name == "Unmarshal" && len(x.Args) == 2 {
+					unmarshals = append(unmarshals, x)
+				}
+			}
+			return true
+		})
+	}
+	if boot == nil || len(boot.Args) != 2 || len(unmarshals) != 1 {
+		return twoPass{Why: fmt.Sprintf("bootstrapResolver call found=%v, Unmarshal calls=%d", boot != nil, len(unmarshals))}
+	}
+	first, _ := ast.Unparen(boot.Args[0]).(*ast.CallExpr)
+	um := unmarshals[0]
+	second, _ := ast.Unparen(um.Fun.(*ast.SelectorExpr).X).(*ast.CallExpr)
+	if first == nil || second == nil {
+		return twoPass{Why: "the unmarshalers are not constructed in place"}
+	}
+	f1, p1 := ctorOf(info, first.Fun)
+	f2, p2 := ctorOf(info, second.Fun)
+	firstNil := len(first.Args) == 1 && isNilIdent(info, first.Args[0])
+	secondBoot := len(second.Args) >= 1 && bootVar != nil && identObj(info, second.Args[0]) == bootVar
+	same := (f1 != nil && f1 == f2) || (p1 != nil && p1 == p2)
+	sameData := identObj(info, um.Args[0]) != nil && identObj(info, um.Args[0]) == identObj(info, boot.Args[1])
+	tp := twoPass{OK: firstNil && secondBoot && same && sameData, Static: f1, Param: p1,
+		Why: fmt.Sprintf("first pass resolver nil=%v, second pass uses the bootstrapped resolver=%v, same constructor both times=%v, same data=%v", firstNil, secondBoot, same, sameData)}
+	return tp
+}
+
+// codecOfCtorArg: the codec a constructor argument stands for: protoencoding.New<X>Unmarshaler, or a function
+// literal that returns New<X>Unmarshaler(<its parameter>).
+func codecOfCtorArg(info *types.Info, e ast.Expr) string {
+	if fn, _ := ctorOf(info, e); fn != nil {
+		if m := reCodec.FindStringSubmatch(fn.Name()); m != nil && m[2] == "Unmarshaler" {
+			return m[1]
+		}
+	}
+	if lit, ok := ast.Unparen(e).(*ast.FuncLit); ok && len(lit.Type.Params.List) == 1 && len(lit.Type.Params.List[0].Names) == 1 {
+		prm := info.Defs[lit.Type.Params.List[0].Names[0]]
+		codec := ""
+		ast.Inspect(lit.Body, func(n ast.Node) bool {
+			if call, ok := n.(*ast.CallExpr); ok && len(call.Args) >= 1 && identObj(info, call.Args[0]) == prm {
+				if fn, _ := ctorOf(info, call.Fun); fn != nil {
+					if m := reCodec.FindStringSubmatch(fn.Name()); m != nil && m[2] == "Unmarshaler" {
+						codec = m[1]
+					}
+				}
+			}
+			return true
+		})
+		return codec
+	}
+	return ""
+}
+
 func c11Bootstrap(c *Ctx, pkCtl *packages.Package) {
 	p := c.P
 	fr := p.Func(pkgBufctl, "controller.getImageForMessageRef")
@@ -884,67 +994,70 @@ func c11Bootstrap(c *Ctx, pkCtl *packages.Package) {
 		c.Fail("BOOTSTRAP", "switch", fr.Decl.Pos(), "no switch over MessageEncoding in getImageForMessageRef")
 		return
 	}
-	for k, cc := range es.Arms {
-		var boot *ast.CallExpr
-		var bootVar types.Object
+	for _, k := range sortedKeys(es.Arms) {
+		cc := es.Arms[k]
 		addsNoReparse := false
-		var unmarshals []*ast.CallExpr
 		for _, s := range cc.Body {
 			ast.Inspect(s, func(n ast.Node) bool {
-				switch x := n.(type) {
-				case *ast.AssignStmt:
-					if len(x.Rhs) == 1 {
-						if call, ok := ast.Unparen(x.Rhs[0]).(*ast.CallExpr); ok {
-							if fn := Callee(info, call); fn != nil && fn.Name() == "bootstrapResolver" {
-								boot = call
-								bootVar = identObj(info, x.Lhs[0])
-							}
-						}
-					}
-				case *ast.CallExpr:
-					if fn := Callee(info, x); fn != nil {
-						if fn.Name() == "WithNoReparse" {
-							addsNoReparse = true
-						}
-						if fn.Name() == "Unmarshal" {
-							unmarshals = append(unmarshals, x)
-						}
+				if call, ok := n.(*ast.CallExpr); ok {
+					if fn := Callee(info, call); fn != nil && fn.Name() == "WithNoReparse" {
+						addsNoReparse = true
 					}
 				}
 				return true
 			})
 		}
+		// the arm is a two-pass itself, or calls a helper of the package that is one
+		tp := twoPassShape(info, cc.Body)
+		codec := ""
+		if tp.OK && tp.Static != nil {
+			if m := reCodec.FindStringSubmatch(tp.Static.Name()); m != nil && m[2] == "Unmarshaler" {
+				codec = m[1]
+			}
+		}
+		if !tp.OK {
+			for _, s := range cc.Body {
+				ast.Inspect(s, func(n ast.Node) bool {
+					call, ok := n.(*ast.CallExpr)
+					if !ok || tp.OK {
+						return true
+					}
+					fn := Callee(info, call)
+					if fn == nil || fn.Pkg() != pkCtl.Types {
+						return true
+					}
+					h := p.DeclOf(fn)
+					if h == nil || h.Decl.Body == nil {
+						return true
+					}
+					ht := twoPassShape(h.Info(), h.Decl.Body.List)
+					if !ht.OK || ht.Param == nil {
+						return true
+					}
+					// which argument is the constructor parameter?
+					idx := 0
+					for _, fl := range h.Decl.Type.Params.List {
+						for _, nm := range fl.Names {
+							if h.Info().Defs[nm] == types.Object(ht.Param) && idx < len(call.Args) {
+								tp = ht
+								tp.Why = "through helper " + fn.Name() + ": " + ht.Why
+								codec = codecOfCtorArg(info, call.Args[idx])
+							}
+							idx++
+						}
+					}
+					return true
+				})
+			}
+		}
 		if k == "MessageEncodingBinpb" {
-			c.Ob("BOOTSTRAP", "arm "+k+"/reparse-left-on", cc.Pos(), !addsNoReparse && boot == nil, true,
+			c.Ob("BOOTSTRAP", "arm "+k+"/reparse-left-on", cc.Pos(), !addsNoReparse && !tp.OK, true,
 				"the binary arm unmarshals once without a resolver and leaves the reparse of custom options to NewImageForProto (WithNoReparse added: %v)", addsNoReparse)
 			continue
 		}
-		ok := boot != nil && len(boot.Args) == 2 && len(unmarshals) == 1
-		desc := ""
-		if ok {
-			// the bootstrap unmarshaler has a nil resolver and this arm's codec; the second one takes the bootstrapped resolver; same data
-			first, _ := ast.Unparen(boot.Args[0]).(*ast.CallExpr)
-			um := unmarshals[0]
-			sel, _ := um.Fun.(*ast.SelectorExpr)
-			var second *ast.CallExpr
-			if sel != nil {
-				second, _ = ast.Unparen(sel.X).(*ast.CallExpr)
-			}
-			fOK := first != nil && len(first.Args) == 1 && isNilIdent(info, first.Args[0])
-			sOK := second != nil && len(second.Args) >= 1 && identObj(info, second.Args[0]) == bootVar && bootVar != nil
-			sameCodec := false
-			if first != nil && second != nil {
-				f1, f2 := Callee(info, first), Callee(info, second)
-				sameCodec = f1 != nil && f2 != nil && f1 == f2 && f1.Name() == "New"+c11EncodingCodec[k]+"Unmarshaler"
-			}
-			sameData := len(um.Args) == 2 && identObj(info, um.Args[0]) != nil && identObj(info, um.Args[0]) == identObj(info, boot.Args[1])
-			ok = fOK && sOK && sameCodec && sameData
-			desc = fmt.Sprintf("first pass resolver nil=%v, second pass uses the bootstrapped resolver=%v, both New%sUnmarshaler=%v, same data=%v", fOK, sOK, c11EncodingCodec[k], sameCodec, sameData)
-		} else {
-			desc = fmt.Sprintf("bootstrapResolver call found=%v, Unmarshal calls=%d", boot != nil, len(unmarshals))
-		}
-		c.Ob("BOOTSTRAP", "arm "+k+"/two-pass", cc.Pos(), ok, true, "%s", desc)
-		c.Ob("BOOTSTRAP", "arm "+k+"/no-reparse-only-after-two-pass", cc.Pos(), !addsNoReparse || boot != nil, true, "WithNoReparse (added: %v) only where the arm already re-parsed with a bootstrapped resolver (%v)", addsNoReparse, boot != nil)
+		want := c11EncodingCodec[k]
+		c.Ob("BOOTSTRAP", "arm "+k+"/two-pass", cc.Pos(), tp.OK && codec == want, true, "%s; codec of both passes: %q (want %q)", tp.Why, codec, want)
+		c.Ob("BOOTSTRAP", "arm "+k+"/no-reparse-only-after-two-pass", cc.Pos(), !addsNoReparse || tp.OK, true, "WithNoReparse (added: %v) only where the arm already re-parsed with a bootstrapped resolver (%v)", addsNoReparse, tp.OK)
 	}
 	// bootstrapResolver itself: resolver built from the files of the message it just unmarshalled
 	if br := p.Func(pkgBufctl, "bootstrapResolver"); br == nil {
@@ -1492,4 +1605,62 @@ func localDerivedFromAccessor(info *types.Info, body ast.Node, v, recv types.Obj
 		})
 	}
 	return hit
+}
+
+
+// c11ProtoImageFileBuilder finds, by what it does rather than by its name, the function of bufimage that builds the
+// proto form of an image file: the one holding the imagev1.ImageFile_builder literal.
+func c11ProtoImageFileBuilder(p *Prog) *FuncRef {
+	pk := p.Pkg(pkgImage)
+	if pk == nil {
+		return nil
+	}
+	var out *FuncRef
+	for _, fr := range p.FuncsOf(pk) {
+		if fr.Decl.Body != nil && findCompositeLit(fr.Info(), fr.Decl.Body, "ImageFile_builder") != nil {
+			if out != nil {
+				return nil // ambiguous: undecided
+			}
+			out = fr
+		}
+	}
+	return out
+}
+
+// c11ImageFileToProto finds the function that hands an ImageFile's attributes (three or more of its accessors) to
+// the builder function.
+func c11ImageFileToProto(p *Prog, builder *FuncRef) *FuncRef {
+	pk := p.Pkg(pkgImage)
+	if pk == nil || builder == nil {
+		return nil
+	}
+	for _, fr := range p.FuncsOf(pk) {
+		if fr.Decl.Body == nil {
+			continue
+		}
+		info := fr.Info()
+		found := false
+		ast.Inspect(fr.Decl.Body, func(n ast.Node) bool {
+			call, ok := n.(*ast.CallExpr)
+			if !ok || Callee(info, call) != builder.Obj {
+				return true
+			}
+			acc := 0
+			for _, a := range call.Args {
+				if ac, ok := ast.Unparen(a).(*ast.CallExpr); ok && len(ac.Args) == 0 {
+					if sel, ok := ac.Fun.(*ast.SelectorExpr); ok && namedName(info.TypeOf(sel.X)) == "ImageFile" {
+						acc++
+					}
+				}
+			}
+			if acc >= 3 {
+				found = true
+			}
+			return true
+		})
+		if found {
+			return fr
+		}
+	}
+	return nil
 }
